@@ -131,73 +131,99 @@ theorem maxLabel_eq_some_iff (L : List Nat) (M : Nat) :
 theorem maxLabel_eq_none_iff (L : List Nat) : maxLabel L = none ↔ L = [] := by
   cases L <;> simp [maxLabel]
 
-/-! ### the basis loop -/
+/-! ### the supported gates of the basis and their calibration tables -/
 
-theorem firstInt_eq_none_iff (basis : List String) :
-    firstInt basis = none ↔ ∀ x ∈ basis, x ≠ "ecr" ∧ x ≠ "cx" := by
-  induction basis with
-  | nil => simp [firstInt]
-  | cons x xs ih =>
-    simp only [firstInt, List.mem_cons, forall_eq_or_imp]
-    by_cases h1 : x = "ecr"
-    · simp [h1]
-    · by_cases h2 : x = "cx"
-      · simp [h2]
-      · simp [h1, h2, ih]
+theorem mem_natives_iff (basis : List String) (g : String) :
+    g ∈ natives basis ↔ g ∈ basis ∧ (g = "ecr" ∨ g = "cx") := by
+  simp [natives]
 
-theorem firstInt_eq_some_iff (basis : List String) (g : String) :
-    firstInt basis = some g ↔
-      ∃ pre post, basis = pre ++ g :: post ∧ (g = "ecr" ∨ g = "cx") ∧ ∀ x ∈ pre, x ≠ "ecr" ∧ x ≠ "cx" := by
-  induction basis with
-  | nil => simp [firstInt]
-  | cons x xs ih =>
-    simp only [firstInt]
-    by_cases h1 : x = "ecr"
-    · subst h1
-      simp only [beq_self_eq_true, if_true, Option.some.injEq]
-      constructor
-      · rintro rfl
-        exact ⟨[], xs, rfl, Or.inl rfl, by simp⟩
-      · rintro ⟨pre, post, hb, _, hpre⟩
-        cases pre with
-        | nil => simp at hb; exact hb.1
-        | cons y ys =>
-          simp only [List.cons_append, List.cons.injEq] at hb
-          exact absurd hb.1.symm (hpre y (by simp)).1
-    · by_cases h2 : x = "cx"
-      · subst h2
-        simp only [beq_self_eq_true, if_true]
-        have : ("cx" == "ecr") = false := by decide
-        simp only [this, Bool.false_eq_true, if_false, Option.some.injEq]
+theorem natives_eq_nil_iff (basis : List String) :
+    natives basis = [] ↔ ∀ x ∈ basis, x ≠ "ecr" ∧ x ≠ "cx" := by
+  simp [natives, List.filter_eq_nil_iff]
+
+theorem intInfos_ok_iff (gate2 : List (String × List ((Nat × Nat) × (Val × Val)))) (gs : List String)
+    (Gs : List (List ((Nat × Nat) × (Val × Val)))) :
+    intInfos gate2 gs = .ok Gs ↔ Gs.map some = gs.map (fun g => List.lookup g gate2) := by
+  induction gs generalizing Gs with
+  | nil => cases Gs <;> simp [intInfos]
+  | cons g gs ih =>
+    simp only [intInfos, List.map_cons]
+    cases hq : List.lookup g gate2 with
+    | none =>
+      simp only [reduceCtorEq, false_iff]
+      intro h
+      cases Gs <;> simp at h
+    | some G =>
+      cases hr : intInfos gate2 gs with
+      | error e =>
+        simp only [reduceCtorEq, false_iff]
+        intro h
+        cases Gs with
+        | nil => simp at h
+        | cons W Ws =>
+          simp only [List.map_cons, List.cons.injEq] at h
+          have := (ih Ws).mpr h.2
+          rw [hr] at this
+          cases this
+      | ok Ws =>
+        have hws := (ih Ws).mp hr
         constructor
-        · rintro rfl
-          exact ⟨[], xs, rfl, Or.inr rfl, by simp⟩
-        · rintro ⟨pre, post, hb, _, hpre⟩
-          cases pre with
-          | nil => simp at hb; exact hb.1
-          | cons y ys =>
-            simp only [List.cons_append, List.cons.injEq] at hb
-            exact absurd hb.1.symm (hpre y (by simp)).2
-      · have e1 : (x == "ecr") = false := by simpa using h1
-        have e2 : (x == "cx") = false := by simpa using h2
-        simp only [e1, e2, Bool.false_eq_true, if_false, ih]
-        constructor
-        · rintro ⟨pre, post, hb, hg, hpre⟩
-          refine ⟨x :: pre, post, by simp [hb], hg, ?_⟩
-          intro y hy
-          rcases List.mem_cons.mp hy with rfl | hy
-          · exact ⟨h1, h2⟩
-          · exact hpre y hy
-        · rintro ⟨pre, post, hb, hg, hpre⟩
-          cases pre with
-          | nil =>
-            simp only [List.nil_append, List.cons.injEq] at hb
-            rcases hg with rfl | rfl
-            · exact absurd hb.1 h1
-            · exact absurd hb.1 h2
-          | cons y ys =>
-            simp only [List.cons_append, List.cons.injEq] at hb
-            exact ⟨ys, post, hb.2, hg, fun z hz => hpre z (by simp [hz])⟩
+        · intro h
+          cases h
+          simp [hws]
+        · intro h
+          cases Gs with
+          | nil => simp at h
+          | cons W Ws' =>
+            simp only [List.map_cons, List.cons.injEq, Option.some.injEq] at h
+            have := (ih Ws').mpr h.2
+            rw [hr] at this
+            cases this
+            rw [h.1]
+
+theorem intInfos_error_iff (gate2 : List (String × List ((Nat × Nat) × (Val × Val)))) (gs : List String) (e : Err) :
+    intInfos gate2 gs = .error e ↔ e = .property ∧ ∃ g ∈ gs, List.lookup g gate2 = none := by
+  induction gs with
+  | nil => simp [intInfos]
+  | cons g gs ih =>
+    simp only [intInfos]
+    cases hq : List.lookup g gate2 with
+    | none =>
+      simp only [Except.error.injEq, List.mem_cons, exists_eq_or_imp, hq, true_or, and_true]
+      exact eq_comm
+    | some G =>
+      cases hr : intInfos gate2 gs with
+      | error e' =>
+        simp only [Except.error.injEq, List.mem_cons, exists_eq_or_imp, hq, reduceCtorEq, false_or]
+        rw [hr] at ih
+        simpa using ih
+      | ok Ws =>
+        simp only [reduceCtorEq, List.mem_cons, exists_eq_or_imp, hq, false_or, false_iff]
+        rw [hr] at ih
+        simpa using ih
+
+/-- `Gs` tables in basis order: the entry of the first table that has the key -/
+def firstHit (Gs : List (List ((Nat × Nat) × (Val × Val)))) (k : Nat × Nat) : Option (Val × Val) :=
+  Gs.findSome? fun G => List.lookup k G
+
+theorem firstHit_eq_findSome (gate2 : List (String × List ((Nat × Nat) × (Val × Val)))) (gs : List String)
+    (Gs : List (List ((Nat × Nat) × (Val × Val)))) (h : Gs.map some = gs.map (fun g => List.lookup g gate2))
+    (k : Nat × Nat) :
+    firstHit Gs k = gs.findSome? (fun g => (List.lookup g gate2).bind (List.lookup k)) := by
+  induction gs generalizing Gs with
+  | nil =>
+    cases Gs with
+    | nil => rfl
+    | cons _ _ => simp at h
+  | cons g gs ih =>
+    cases Gs with
+    | nil => simp at h
+    | cons G Gs =>
+      simp only [List.map_cons, List.cons.injEq] at h
+      simp only [firstHit, List.findSome?_cons, ← h.1, Option.bind_some]
+      cases List.lookup k G with
+      | some v => rfl
+      | none => exact ih Gs h.2
 
 /-! ### tables -/
 
@@ -333,5 +359,48 @@ theorem mem_keys_iff_lookup_isSome {κ α : Type} [BEq κ] [LawfulBEq κ] (G : L
     · simp [h]
     · have hb : (k == k') = false := by simpa using h
       simp [hb, h, ih]
+
+theorem fillAll_append (mq : Nat) (A B : List (List ((Nat × Nat) × (Val × Val))))
+    (acc : List (List Val) × List (List Val)) : fillAll mq (A ++ B) acc = fillAll mq B (fillAll mq A acc) := by
+  induction A generalizing acc with
+  | nil => rfl
+  | cons G A ih => simp only [List.cons_append, fillAll, ih]
+
+theorem fillAll_square (n mq : Nat) (Hs : List (List ((Nat × Nat) × (Val × Val)))) (p t : List (List Val))
+    (hp : Square n p) (ht : Square n t) :
+    Square n (fillAll mq Hs (p, t)).1 ∧ Square n (fillAll mq Hs (p, t)).2 := by
+  induction Hs generalizing p t with
+  | nil => exact ⟨hp, ht⟩
+  | cons G Hs ih =>
+    simp only [fillAll]
+    obtain ⟨h1, h2⟩ := fill_square n mq G G p t hp ht
+    exact ih _ _ h1 h2
+
+/-- the tables are written in reverse basis order, so inside the `mq × mq` tables a cell ends up with the entry of the
+FIRST table (in basis order) that has its index pair as a key, and is unchanged if none has -/
+theorem cell_fillAll_reverse (mq : Nat) (hmq : 1 ≤ mq) (Gs : List (List ((Nat × Nat) × (Val × Val))))
+    (p t : List (List Val)) (hp : Square mq p) (ht : Square mq t) (i j : Nat) (hi : i < mq) (hj : j < mq) :
+    cell (fillAll mq Gs.reverse (p, t)).1 i j =
+        (match firstHit Gs (i, j) with | some v => some v.1 | none => cell p i j) ∧
+      cell (fillAll mq Gs.reverse (p, t)).2 i j =
+        (match firstHit Gs (i, j) with | some v => some v.2 | none => cell t i j) := by
+  induction Gs with
+  | nil => simp [fillAll, firstHit]
+  | cons G Gs ih =>
+    obtain ⟨s1, s2⟩ := fillAll_square mq mq Gs.reverse p t hp ht
+    have e : fillAll mq (G :: Gs).reverse (p, t) =
+        fill mq G G ((fillAll mq Gs.reverse (p, t)).1, (fillAll mq Gs.reverse (p, t)).2) := by
+      rw [List.reverse_cons, fillAll_append]
+      rfl
+    obtain ⟨c1, c2⟩ := cell_fill mq hmq G G _ _ s1 s2 (fun x hx => lookup_isSome_of_mem G x hx) i j hi hj
+    rw [e, c1, c2, ih.1, ih.2]
+    simp only [firstHit, List.findSome?_cons]
+    cases hl : List.lookup (i, j) G with
+    | none =>
+      have : (i, j) ∉ G.map (·.1) := by rw [mem_keys_iff_lookup_isSome, hl]; simp
+      simp [this]
+    | some v =>
+      have : (i, j) ∈ G.map (·.1) := by rw [mem_keys_iff_lookup_isSome, hl]; rfl
+      simp [this]
 
 end QG.Lemmas.Calibration
